@@ -18,6 +18,7 @@ func init() {
 		Assumptions: []string{
 			"reference = own transcription of Perrin et al. (2003) / airGR: S-curves with exponent 5/2, time bases x4 and 2*x4, ordinates by differencing at integer t, 90/10 split, exchange x2*(R/x3)^3.5, Qd=max(0,Q1+F)",
 			"tolerance 1e-9 relative + 1e-12 absolute",
+			"the state vector is read in the order the model's spec declares: s, r, n1, n2, q1[n2], q9[n1]",
 			"hot initial stores are final states of a previous run of the same parameter set (any non-negative S<=x1, R, and unit-hydrograph stores)",
 		},
 		Workloads: []core.Workload{
